@@ -49,6 +49,8 @@ def _case(rng, fam, gseed, cfgd):
     if rng.random() < 0.25:
         cfgd.update(C.rare_params(rng, allow_unvalidated=True))
     case = work.mk_case(fam, gseed, cfgd)
+    if cfgd.get("scaling") == "custom" and rng.random() < 0.3:
+        case["wspan"] = 75   # very unequal scales: scaled bounds of huge / tiny magnitude
     case["y0"] = "rand" if rng.random() < 0.3 else "none"
     if fam in ("QP", "NLP") and rng.random() < 0.25:
         # start point handed over with an integer dtype (array of ints / Python int), no slacks, no scaling
